@@ -505,6 +505,10 @@ func runSocket(e *Env, hostile bool) {
 		r.endAt = e.Stamp()
 		e.Call("close", 5*time.Second, func() { r.sock.Close(); r.closed = true })
 		s.SleepFor(time.Millisecond)
+		// the receiver must have ended although nobody took the frame it was holding
+		for _, t := range e.S.LiveLibTasks() {
+			e.Violate("C16", "receiver-alive-after-close:"+siteKey(t.SpawnSite), "Close returned while the application was not reading; the library goroutine spawned at %s is still alive (at %s)", t.SpawnSite, t.Site)
+		}
 		paused = false
 	case "peer-eof":
 		tcpPeer.Close()
